@@ -98,9 +98,9 @@ class EnvScenario(StateScenario):
 
         def decorate(node, top):
             if top:
-                node["env"] = rng.choice([None, True, True, "APP", "APP", False])
+                node["env"] = rng.choice([None, True, True, "APP", "APP", False, "myapp"])     # a named prefix is used as given
             else:
-                node["env"] = rng.choice([None, None, None, "SUB", "X_Y", False])
+                node["env"] = rng.choice([None, None, None, "SUB", "X_Y", False, "Svc", "x_y"])
             if node["env"] is None:
                 node.pop("env")
             for f in node["fields"]:
@@ -112,8 +112,8 @@ class EnvScenario(StateScenario):
                     if e is not None:
                         f.setdefault("o", {})["env"] = e
 
-        if not avoid_containers and rng.random() < 0.3:
-            k = rng.choice(CONTAINER_KINDS)
+        if rng.random() < 0.3:
+            k = rng.choice(CONTAINER_KINDS if not avoid_containers else ["challenge"])
             node = {"kind": k, "key": "cont", "o": {}}
             if k == "list":
                 node["item"] = {"kind": "string", "o": {}}
